@@ -160,8 +160,9 @@ class Failure(Exception):
         self.where = where
 
 
-def oracle(spec, where, log):
-    """the statement, evaluated independently: -> expected value description"""
+def oracle(spec, where, log, extra=()):
+    """the statement, evaluated independently: -> expected value description.
+    extra: construct keywords handed to translate_hierarchy itself; they belong to the mapping it is called on"""
     if spec.kind == "scalar":
         return ("scalar", spec.value)
     if spec.kind == "list":
@@ -184,7 +185,7 @@ def oracle(spec, where, log):
     if spec.mode in (1, 2):
         raise Failure(where)
     args = vals.pop("__args__", ("list", []))[1]
-    kwargs = [(k, vals[k]) for k in spec.order if k in vals]
+    kwargs = [(k, vals[k]) for k in spec.order if k in vals] + (list(extra) if where == "" else [])
     log.append((spec.name, args, kwargs))
     if spec.mode == 3:
         raise Failure(where)
@@ -209,15 +210,18 @@ def tree(ctx, depth, inner_max, fail_budget):
     g = Gen(ctx, depth, inner_max, fail_budget)
     cfg, spec = g.container("r", 1)
     exp_log = []
+    extra_kw = {}
+    if spec.kind == "typed" and ctx.flag("extra_keyword"):
+        extra_kw = {"zz_extra": ctx.num("extra_value", "int")}
     try:
-        expected = oracle(spec, "", exp_log)
+        expected = oracle(spec, "", exp_log, extra=[(k, ("scalar", v)) for k, v in extra_kw.items()])
         exp_fail = None
     except Failure as f:
         expected, exp_fail = None, f.where
     del F.LOG[:]
     before = snapshot(cfg)
     try:
-        got = Translator().translate_hierarchy(cfg)
+        got = Translator().translate_hierarchy(cfg, **extra_kw)
         err = None
     except ConfigurationError as e:
         got, err = None, e
